@@ -7,7 +7,7 @@ import props.c01 as c01
 
 TEXT_PROBLEMS = ('text-does-not-parse', 'text-changes-effect-annotations-or-scope', 'text-changes-meaning', 'second-rendering-differs',
                  'set-text-does-not-parse', 'set-text-changes-size', 'set-text-order-or-content', 'policy-text-does-not-parse',
-                 'encoder-error', 'decoder-error', 'stream-changes-policy')
+                 'encoder-error', 'decoder-error', 'stream-changes-policy', 'text-changes-tree-no-witness')
 
 
 def targeted_exprs():
@@ -38,6 +38,13 @@ def targeted_exprs():
             ['sub', ['sub', a, b], c], ['sub', a, ['sub', b, c]], ['mul', ['mul', a, b], c], ['mul', a, ['mul', b, c]],
             ['neg', ['access', L(1), S('a')]], ['neg', ['contains', L(1), a]], ['access', L(-5), S('a')], ['neg', ['call', S('toDate'), L(1)]],
             ['has', ['access', C, S('a')], S('b')], ['and', ['has', C, S('a')], ['has', ['access', C, S('a')], S('b')]]]
+    # associativity and precedence over three independent operands (the grouping must survive the round trip)
+    x, y, z = ['access', C, S('x')], ['access', C, S('y')], ['access', C, S('n')]
+    for o1 in ['add', 'sub', 'mul', 'and', 'or']:
+        for o2 in ['add', 'sub', 'mul', 'and', 'or', 'eq', 'lt', 'in']:
+            out += [[o1, x, [o2, y, z]], [o1, [o2, x, y], z], [o2, x, [o1, y, z]], [o2, [o1, x, y], z]]
+    out += [['neg', ['add', x, y]], ['neg', ['mul', x, y]], ['mul', ['neg', x], y], ['not', ['and', x, y]], ['not', ['eq', x, y]],
+            ['access', ['add', x, y], S('k')], ['if', x, y, ['add', z, x]], ['add', ['if', x, y, z], x], ['add', x, ['if', x, y, z]]]
     for k in ['k', 'if', 'true', 'principal', 'in', 'like', 'x y', '', 'é', '1a', '_a', 'a_1', '__cedar', 'has', 'is', 'then', 'else', '"', '\\', '\n', '\x00', ' ']:
         out += [['access', C, S(k)], ['has', C, S(k)], ['mkrec', [S(k), a]]]
     for s_ in ['', 'a', '"', '\\', "'", '\n\r\t', '\x00', '\x1f', '\x7f', '\x80', 'é', ' ', '﻿', '�', '\U0001f600', '*', '\\*', 'a*b', '́', 'ﬁ']:
@@ -90,6 +97,7 @@ def run_codec(ctx, want_text):
     go = lib.run_go(cases, 'codec', ctx.workdir, timeout_ms=30000)
     bad = 0
     hist = {}
+    pending = []
     for c in cases:
         res = go.get(lib.case_id(c), '(missing)')
         ctx.count(c.split(' ', 2)[2][:3000], res == '(ok)')
@@ -106,13 +114,15 @@ def run_codec(ctx, want_text):
             ctx.known(*fid)
             continue
         bad += 1
-        if bad <= 6:
-            try:
-                t = sx.parse(res)
-                details = [sx.unS(x).decode('utf-8', 'replace')[:300] for x in t[2:4]]
-            except Exception:
-                details = []
-            ctx.violation('policy codec: %s %s' % (name, ' | '.join(details)), dict(kind='case', case=c, go=res[:4000]))
+        pending.append((name.endswith('-no-witness'), len(c), c, name, res))
+    # report concrete failing inputs first, smallest first
+    for nowit, _, c, name, res in sorted(pending)[:6]:
+        try:
+            t = sx.parse(res)
+            details = [sx.unS(x).decode('utf-8', 'replace')[:300] for x in t[2:4]]
+        except Exception:
+            details = []
+        ctx.violation('policy codec: %s %s' % (name, ' | '.join(details)), dict(kind='case', case=c, go=res[:4000]), found_input=not nowit)
     ctx.extra['result_histogram'] = hist
     for c in cases[:2] + cases[-2:]:
         ctx.sample(dict(case=c[:300], go=(go.get(lib.case_id(c)) or '')[:200]))
@@ -120,6 +130,7 @@ def run_codec(ctx, want_text):
 
 
 def classify(c, name, res):
+    c = c.split(' (envs ')[0]          # the policy, not the environments it is evaluated on
     if name in ('second-json-differs', 'second-rendering-differs'):
         import props.c13 as c13
         if c13.two_wrapping_members(c):
